@@ -1165,6 +1165,44 @@ func pairedNodeLists(w *World, fn *ssa.Function, a, b ssa.Value) bool {
 	return sites > 0
 }
 
+// countdownLoop: the loop is left when its counter is no longer above a constant, and every
+// way round the loop takes a positive constant off the counter.
+func countdownLoop(hdr *ssa.BasicBlock) bool {
+	ifi, ok := hdr.Instrs[len(hdr.Instrs)-1].(*ssa.If)
+	if !ok {
+		return false
+	}
+	cmp, ok := ifi.Cond.(*ssa.BinOp)
+	if !ok || (cmp.Op != token.GTR && cmp.Op != token.GEQ) {
+		return false
+	}
+	ph, ok := cmp.X.(*ssa.Phi)
+	if !ok || ph.Block() != hdr {
+		return false
+	}
+	if k, ok := cmp.Y.(*ssa.Const); !ok || k.Value == nil || k.Value.Kind() != constant.Int {
+		return false
+	}
+	body := loopBody(hdr)
+	if body[hdr.Succs[1]] && hdr.Succs[1] != hdr {
+		return false // the failing side stays in the loop
+	}
+	for i, e := range ph.Edges {
+		if !body[hdr.Preds[i]] {
+			continue
+		}
+		bo, ok := e.(*ssa.BinOp)
+		if !ok || bo.Op != token.SUB || bo.X != ssa.Value(ph) {
+			return false
+		}
+		k, ok := bo.Y.(*ssa.Const)
+		if !ok || k.Value == nil || k.Value.Kind() != constant.Int || constant.Sign(k.Value) <= 0 {
+			return false
+		}
+	}
+	return true
+}
+
 // regexPatternOf: the constant pattern of a compiled regular expression: compiled on the
 // spot, or kept in a package-level variable that is assigned once, by its initialiser.
 func regexPatternOf(v ssa.Value) (string, bool) {
@@ -2973,6 +3011,10 @@ func LexProgressRule(w *World, r *Result, rule string) {
 				}
 			}
 			if isRange {
+				continue
+			}
+			// a loop that counts a variable down to a constant ends by construction
+			if countdownLoop(hdr) {
 				continue
 			}
 			// the outermost scanning loop ends through the unknown-token error when no arm matched;
